@@ -215,7 +215,8 @@ def build_inputs(I, prog, shape, nranges):
                 I2.add(a > prev_end)
             prev_end = b
             rs.append((a, b))
-        I2.add(prev_end <= length)
+        if prev_end is not None:
+            I2.add(prev_end <= length)
         n = mod_events[k]['n']
         # geometry of the replay file: a start-tag line is at least as long as its comment
         I2.add(z3.Implies(n == c.Sb, length >= c.cs - 1))
@@ -270,6 +271,8 @@ def run_shape(task):
         # (a) every change that certainly lies between the tags must mark the block modified
         if r is False:
             for e in sc.events:
+                if nranges == 0 and e['kind'] == 'mod':
+                    continue        # a -/+ pair with identical text (end-of-line-only change): no verdict asked
                 cond = ev_inside(e, c.Sb, c.Ea)
                 if cond is None:
                     continue
